@@ -22,6 +22,9 @@ def dispatch(prop):
     if prop == "C10":
         import temperature
         return temperature.run_c10
+    if prop == "C20":
+        import intern
+        return intern.run_c20
     if prop == "C08":
         import conversions
         return conversions.run_c08
